@@ -174,3 +174,25 @@ Proof.
   split; [exact H0|]. split; [exact He|]. split; [intros q it X Hit Hn; apply (build_goto_complete g aut q it X Hb Hit Hn)|].
   split; [apply (proj2 (build_no_duplicate_states g aut Hb))|exact Hreach].
 Qed.
+
+(* C12 from the text: what a refusal of the generator means, stage by stage (the cases of `front a = inl e` are C12_visit_cases and
+   C12_build_cases; `generate_tables` re-tests productivity on the grammar object, which `front` has tested already) *)
+Theorem text_refusal s e : generate_text s = GFront e ->
+  exists a, parse_text s = PAst a /\
+    (front a = inl e \/ exists b l, front a = inr b /\ generate_tables (b_gi b) = inl (EUnproductive l) /\ e = FUnproductive l).
+Proof.
+  unfold generate_text. destruct (parse_text s) as [a| | | |]; try discriminate.
+  destruct (front a) as [e0|b] eqn:Ef.
+  - intros H. inversion H; subst e0. exists a. split; [reflexivity|left; exact Ef].
+  - destruct (generate_tables (b_gi b)) as [[l|]|t] eqn:Eg; try discriminate.
+    intros H. inversion H; subst e. exists a. split; [reflexivity|]. right. exists b, l. split; [exact Ef|split; [exact Eg|reflexivity]].
+Qed.
+
+Theorem text_too_many s : generate_text s = GTooMany ->
+  exists a b, parse_text s = PAst a /\ front a = inr b /\ generate_tables (b_gi b) = inl ETooManyStates.
+Proof.
+  unfold generate_text. destruct (parse_text s) as [a| | | |]; try discriminate.
+  destruct (front a) as [e0|b] eqn:Ef; [discriminate|].
+  destruct (generate_tables (b_gi b)) as [[l|]|t] eqn:Eg; try discriminate.
+  intros _. exists a, b. auto.
+Qed.
